@@ -192,4 +192,13 @@ example : varOk [⟨"x", "f", true, false, [], ["m"], false⟩, ⟨"x", "g", fal
 /-- Two unlocked plain writers (one row, as for a handler run by many goroutines) are undisciplined. -/
 example : varOk [⟨"x", "f", true, false, [], [], false⟩] "x" = false := by decide +kernel
 
+/-- Atomic writers and one plain reader (what a call of a value-receiver method amounts to: the struct is copied at the
+call site) are undisciplined - F17, `tokens_t.count()`. -/
+example : varOk [⟨"x", "get", true, true, [], [], false⟩, ⟨"x", "ret", true, true, [], [], false⟩,
+                 ⟨"x", "pollOffer", false, false, [], [], false⟩] "x" = false := by decide +kernel
+
+/-- ... and with an atomic read (pointer receiver) they are disciplined. -/
+example : varOk [⟨"x", "get", true, true, [], [], false⟩, ⟨"x", "ret", true, true, [], [], false⟩,
+                 ⟨"x", "count", false, true, [], [], false⟩] "x" = true := by decide +kernel
+
 end Snowflake.C20
